@@ -355,7 +355,6 @@ iface (s storage) put(key string, value string) (err error)
   pure
 func (sm *SessionManager) doStore()
   flag allocates
-  flag frame=unchecked
   requires sm != nil && sm.store != nil
   modifies gStoreReceived, gStorePuts, gStoreFaithful
   ensures every-queued-session-copy-is-written-under-its-clients-key: gStorePuts - old(gStorePuts) == gStoreReceived - old(gStoreReceived) && gStoreFaithful
